@@ -56,6 +56,16 @@ pub fn replay_one(b: &Value, rng: &mut StdRng) -> Option<String> {
             _ => [1e30, 1e20, 1e20, f64::MAX, f64::INFINITY][rng.gen_range(0..5)] };
         if bcls[i] != "fin" { z0[i] = 0.0; }
     }
+    // now and then an infeasible instance (a vacuous-looking row 0'x + s = -1 in a nonnegative cone): dropped rows are
+    // reinstated in the same way whatever the verdict
+    let mut a = a;
+    if rng.gen::<f64>() < 0.2 {
+        let mut off = 0;
+        for c in &cones {
+            if let ConeSpec::Nonneg(d) = c { if let Some(i) = (off..off + d).find(|i| bcls[*i] == "fin") { for j in 0..n { a[i][j] = 0.0; } bb[i] = -1.0; break; } }
+            off += c.numel();
+        }
+    }
     let mut q = vec![0.0; n];
     for j in 0..n { q[j] = -(0..m).map(|i| a[i][j] * z0[i]).sum::<f64>() - x0[j]; } // P = I: q = -(x0 + A'z0)
     let mut pid = vec![vec![0.0; n]; n];
@@ -173,6 +183,33 @@ pub fn replay_one(b: &Value, rng: &mut StdRng) -> Option<String> {
     }
 }
 
+/// Histories of the module-level bound that the model's two values do not cover: an infinite bound set after a small one.
+fn infinite_bound_histories() -> Vec<String> {
+    let mut bad = vec![];
+    let res = catch_unwind(AssertUnwindSafe(|| {
+        let mut out = vec![];
+        let a = Csc::from_dense(&[vec![1.0], vec![1.0], vec![1.0]], 3, 1);
+        let pm = Csc::from_dense(&[vec![1.0]], 1, 1);
+        let p = Problem { P: pm, q: vec![1.0], A: a, b: vec![50.0, f64::INFINITY, 1e30], cones: vec![ConeSpec::Nonneg(3)],
+                          settings: json!({"presolve_enable": true, "equilibrate_enable": false}), tag: "infbound".into() };
+        let (P, A) = (p.P.to_clarabel(), p.A.to_clarabel());
+        // (with an infinite bound nothing lies strictly above the contracted bound: every row is kept, the code's reading)
+        let inf = f64::INFINITY;
+        for (hist, want_m, want_b) in [(vec![10.0, inf], 3usize, vec![50.0, inf, 1e30]), (vec![inf, 10.0], 0, vec![]), (vec![inf], 3, vec![50.0, inf, 1e30]), (vec![10.0, 1e25], 1, vec![50.0])] {
+            clarabel::default_infinity();
+            for v in &hist { clarabel::set_infinity(*v); }
+            let solver = DefaultSolver::new(&P, &p.q, &A, &p.b, &p.clarabel_cones(), p.settings());
+            if clarabel::get_infinity().to_bits() != hist.last().unwrap().to_bits() { out.push(format!("after set_infinity{:?} the bound in force is {}", hist, clarabel::get_infinity())); }
+            if solver.data.m != want_m || solver.data.b != want_b { out.push(format!("after set_infinity{:?}: internal rows {:?} but the rows below the bound are {:?}", hist, solver.data.b, want_b)); }
+        }
+        clarabel::default_infinity();
+        out
+    }));
+    clarabel::default_infinity();
+    match res { Ok(v) => bad.extend(v), Err(e) => bad.push(format!("panic: {}", crate::rec_ipm::panic_msg(e))) }
+    bad
+}
+
 pub fn replay_file(path: &str, out: &str, seed: u64) -> Value {
     let text = std::fs::read_to_string(path).expect("behaviours");
     let mut rng = StdRng::seed_from_u64(seed);
@@ -187,6 +224,11 @@ pub fn replay_file(path: &str, out: &str, seed: u64) -> Value {
         if let Some(m) = replay_one(&b, &mut rng) {
             let class = m.split(|c: char| c.is_ascii_digit() || c == '[').next().unwrap_or("").trim().replace(' ', "_");
             bad.push(json!({"behaviour": b, "mismatch": m, "class": class}));
+        }
+    }
+    if n > 1 {
+        for m in infinite_bound_histories() {
+            bad.push(json!({"behaviour": {"cones": [], "bcls": [], "presolve": true, "hist": [], "expect": {}, "infinite_bound_history": true}, "mismatch": m, "class": "infinite_bound_history"}));
         }
     }
     crate::write_lines(out, &bad);
